@@ -45,6 +45,10 @@ def cases(draw, tier):
     if kind in ("summarize", "stats"):
         vk = draw(st.sampled_from(["count", "posint", "posdyadic", "int",
                                    "small"]))
+    elif kind in ("to_dataframe", "nonzero", "min", "max", "density",
+                  "head", "table_ids"):
+        # figures that involve no arithmetic: any finite value
+        vk = draw(st.sampled_from(["int", "dyadic", "count", "wild", "frac"]))
     else:
         vk = draw(st.sampled_from(["int", "dyadic", "count"]))
     idk = draw(st.sampled_from(["simple", "simple", "tsv"])) \
@@ -110,9 +114,44 @@ def run_cmd(cmd, args, sub=False):
     return out
 
 
+AGAIN_KINDS = ("sum", "min", "max", "nonzero_counts", "density", "nonzero",
+               "reduce", "stats")
+
+
+class _Quiet:
+    """Recorder stand-in for the second pass of a case."""
+    def cls(self, *a, **k):
+        pass
+
+    def skip(self, *a, **k):
+        pass
+
+    def nt(self, *a, **k):
+        pass
+
+
 def check(case, rec):
-    kind = case["kind"]
     t = gen.build(case["table"], rec=rec)
+    _check(case, rec, t)
+    if case["kind"] in AGAIN_KINDS and case.get("m", 0) % 3 == 0 and \
+            not t.is_empty():
+        # the table has answered this summary once; after in-place edits the
+        # same question is about what it holds now
+        t.transform(lambda v, i, md: v * 2, axis="observation", inplace=True)
+        ids = [str(i) for i in t.ids()]
+        same = {i: i[:-1] + ("~" if i[-1:] != "~" else "^") for i in ids if i}
+        if len(same) == len(ids) and len(set(same.values())) == len(ids):
+            t.update_ids(same, inplace=True)
+        rec.cls("asked-again-after-in-place-edits")
+        try:
+            _check(case, _Quiet(), t)
+        except Violation as v:
+            raise Violation(v.sub, "asked again after in-place edits "
+                            "(values doubled, samples renamed): " + v.msg)
+
+
+def _check(case, rec, t):
+    kind = case["kind"]
     before = observe.snapshot(t)
     ref = Ref.from_snapshot(before)
     D = np.asarray(ref.rows, dtype=float).reshape(len(ref.obs),
